@@ -206,7 +206,9 @@ def _unrounded_reads(m):
                 name = p.targets[0].id
                 uses = [x for x in ast.walk(fn) if isinstance(x, ast.Name) and x.id == name and isinstance(x.ctx, ast.Load)]
                 stores = [x for x in ast.walk(fn) if isinstance(x, ast.Name) and x.id == name and isinstance(x.ctx, ast.Store)]
-                return len(stores) == 1 and bool(uses) and all(consumed(u, depth + 1) for u in uses)
+                # (the name may be re-bound, as long as every binding is such a coordinate read and every use is rounded)
+                same_kind = all(isinstance(parents.get(id(x_)), ast.Assign) and any(isinstance(y_, ast.Attribute) and y_.attr == 'absanchors' for y_ in ast.walk(parents[id(x_)].value)) for x_ in stores)
+                return (len(stores) == 1 or same_kind) and bool(uses) and all(consumed(u, depth + 1) for u in uses)
             return False
         for n in own:
             if consumed(n): good += 1
